@@ -175,43 +175,18 @@ def inlined_matcher(ctx, fn, table, callers):
     return found
 
 
-def run(ctx):
+def matchers(ctx, bindings, only=None):
+    """T1/T2/T3 for the value-match decoders (all, or those named in `only`): accepted constant set = the spec's, each value produces
+    its variant, the `_` arm always errs, the decoder is reached on every path that builds the decoded structure, its Result is
+    propagated and its argument is the whole spec field.  -> number of literal arms examined"""
+    import layout
     fx = ctx.fx
     g = CG.get(fx)
     load = CG.load_cone(fx)
-    ctx.rules = ['L1 refusal fields at spec position/width', 'T1 value table', 'T2 otherwise->Err', 'T3 decoder reached + propagated', 'T4 condition refusals',
-                 'T5 tileset pixels must-pass-through', 'P8 error discipline on the LOAD cone']
-    ctx.explanation = (
-        'Static switch-table extraction over MIR. For each documented refusal the check finds the branch on the file '
-        'field, reads off the accepted constant set and the value each arm produces, requires the remaining edge to '
-        'return Err on every path without constructing the Ok value, requires the decoder call to dominate the '
-        'construction of the decoded structure in its caller and its Result to be ?-propagated, and requires the decoder '
-        'to lie in the call-graph cone of read_aseprite. The pixel-ratio refusal is decided by abstractly evaluating the '
-        'guard conditions over the value classes {0,1,other} of the two header bytes (a finite truth table). '
-        'Error discipline (no dropped Result) is checked on all fallible call sites of the loader cone. '
-        'Not decided: which error variant is used; features not on the property\'s list.')
     literal_arms = 0
-
-    # ---------------- L1: the fields the refusals look at are read at their spec position and width (seed C15-g read the cel type as a
-    # BYTE: the refusal then sees only the low half and 0x0100 loads as a raw cel)
-    import layout
-    import spec as SP
-    import C07 as _c07
-    spec = SP.load_spec()
-    bindings = {}
-    for fn in sorted(spec['decoders']):
-        if fn in ('asefile::parse::read_aseprite', 'asefile::parse::Chunk::read', 'asefile::layer::parse_chunk', 'asefile::cel::parse_chunk',
-                  'asefile::color_profile::parse_chunk', 'asefile::tags::parse_chunk', 'asefile::tileset::Tileset::parse_chunk'):
-            bnd, _ = layout.check_layout(ctx, spec, fn, spec['decoders'][fn], rule='L1')
-            for k, v in bnd.items():
-                bindings.setdefault(k, v)
-    ctx.floor('read sites bound to spec fields in the refusing decoders', len(bindings), 40)
-    # .. and every chunk of a frame is handed to the dispatch (seed C15-h: min(old, new) count leaves the chunks after the 65535th,
-    # and whatever unsupported feature they carry, unparsed)
-    _c07.chunk_count_selection(ctx, 'T3')
-
-    # ---------------- T1/T2/T3 value matchers
     for fn, (pidx, table, callers) in MATCHERS.items():
+        if only is not None and fn not in only:
+            continue
         if fx.body(fn) is None and inlined_matcher(ctx, fn, table, callers):
             literal_arms += len(table)
             continue
@@ -283,6 +258,47 @@ def run(ctx):
                 isread = all(whole_field(x) for x in alts(at))
                 ctx.inst('T3', '%s in %s#arg' % (fn, cn), isread, 'matched value is %s (must be the whole `%s` field of the spec layout, not narrowed)'
                          % (show(at), FIELD[fn]), c.span, key=ctx.key(cn, 'T3', 'arg', fn))
+
+    return literal_arms
+
+
+def run(ctx):
+    fx = ctx.fx
+    g = CG.get(fx)
+    load = CG.load_cone(fx)
+    ctx.rules = ['L1 refusal fields at spec position/width', 'T1 value table', 'T2 otherwise->Err', 'T3 decoder reached + propagated', 'T4 condition refusals',
+                 'T5 tileset pixels must-pass-through', 'P8 error discipline on the LOAD cone']
+    ctx.explanation = (
+        'Static switch-table extraction over MIR. For each documented refusal the check finds the branch on the file '
+        'field, reads off the accepted constant set and the value each arm produces, requires the remaining edge to '
+        'return Err on every path without constructing the Ok value, requires the decoder call to dominate the '
+        'construction of the decoded structure in its caller and its Result to be ?-propagated, and requires the decoder '
+        'to lie in the call-graph cone of read_aseprite. The pixel-ratio refusal is decided by abstractly evaluating the '
+        'guard conditions over the value classes {0,1,other} of the two header bytes (a finite truth table). '
+        'Error discipline (no dropped Result) is checked on all fallible call sites of the loader cone. '
+        'Not decided: which error variant is used; features not on the property\'s list.')
+    literal_arms = 0
+
+    # ---------------- L1: the fields the refusals look at are read at their spec position and width (seed C15-g read the cel type as a
+    # BYTE: the refusal then sees only the low half and 0x0100 loads as a raw cel)
+    import layout
+    import spec as SP
+    import C07 as _c07
+    spec = SP.load_spec()
+    bindings = {}
+    for fn in sorted(spec['decoders']):
+        if fn in ('asefile::parse::read_aseprite', 'asefile::parse::Chunk::read', 'asefile::layer::parse_chunk', 'asefile::cel::parse_chunk',
+                  'asefile::color_profile::parse_chunk', 'asefile::tags::parse_chunk', 'asefile::tileset::Tileset::parse_chunk'):
+            bnd, _ = layout.check_layout(ctx, spec, fn, spec['decoders'][fn], rule='L1')
+            for k, v in bnd.items():
+                bindings.setdefault(k, v)
+    ctx.floor('read sites bound to spec fields in the refusing decoders', len(bindings), 40)
+    # .. and every chunk of a frame is handed to the dispatch (seed C15-h: min(old, new) count leaves the chunks after the 65535th,
+    # and whatever unsupported feature they carry, unparsed)
+    _c07.chunk_count_selection(ctx, 'T3')
+
+    # ---------------- T1/T2/T3 value matchers
+    literal_arms += matchers(ctx, bindings)
 
     pixel_ratio(ctx)
 
